@@ -195,10 +195,16 @@ func (lexer *Lexer) Linenum() int {
 
 func (lex *Lexer) Reset() {
 	lex.stream = nil
+	lex.next = nil // input queued for an abandoned parse must not be read by the next one
 	lex.tokens = lex.tokens[:0]
 	lex.state = LexerNormal
 	lex.linenum = 1
 	lex.preBuiltinRune = 0
+	lex.prevrune = 0
+	lex.prevToken = Token{}
+	lex.prevPrevToken = Token{}
+	lex.priori = 0
+	lex.priorRune = [20]rune{}
 	lex.buffer.Reset()
 }
 
